@@ -22,6 +22,7 @@ class Program:
     params: dict[str, Any] = field(default_factory=dict)
     kwargs: dict[str, Any] = field(default_factory=dict)  # further to_onnx kwargs
     given: list[list[np.ndarray]] | None = None  # only these points are in-domain
+    given_labels: list[str] | None = None
     symbols: list[str] = field(default_factory=list)
     # per-input admissible classes for hostile draws (None: any)
     float_classes: list[str] | None = None
@@ -143,7 +144,8 @@ def differential(
     sig = prog.signature(binding)
     if prog.given is not None:
         for gi, xs in enumerate(prog.given):
-            plan.append((f"given{gi}" if len(prog.given) > 1 else "given", list(xs), None, np.random.default_rng([seed, 7, gi])))
+            label = prog.given_labels[gi] if prog.given_labels and gi < len(prog.given_labels) else (f"given{gi}" if len(prog.given) > 1 else "given")
+            plan.append((label, list(xs), None, np.random.default_rng([seed, 7, gi])))
     else:
         for di, (fcls, icls) in enumerate(draws):
             rng = np.random.default_rng([seed, stable_hash(prog.pid) % (2**31), di])
